@@ -24,6 +24,8 @@ TRUSTED = CC.TRUSTED_COMMON + [
     "C04: 'quiescent' = between two ops of the history (asyncio runs each datagram / purge / API call to completion)",
 ]
 ASSUMPTIONS = [
+    "'the callbacks a service browser delivers' is read per registered handler: every handler of a browser (the listener and a second plain "
+    "handler) is handed the same events in the same order (C04:second-handler)",
     "WFHist (the quantifier's restriction), enforced by the generator: pointer records have an owner name spelled exactly as a browsed type "
     "and class IN; the browsed types (_x._tcp.local., _y._udp.local., _Zed._tcp.local. -- with an upper-case letter --, and the six-label subtype "
     "_printer._sub._http._tcp.local., whose base type nobody browses) are not nested; one datagram never carries two spellings of one "
@@ -114,7 +116,10 @@ def oracle(probes, ops, obs, res):
                 if not live.get(key):
                     found.append((idx, "C04:removed-without-added", "browser %d delivered Removed(%s, %s) for an instance that is not currently added" % (bid, type_, name)))
                 live[key] = False
-            if snap is not None and snap != o["S"]:
+            # "callbacks are delivered only after the records of the triggering datagram are in the cache": demanded of Added callbacks
+            # (the sentence's own example is the lookup from inside add_service); what Removed / Updated callbacks see is compared with
+            # the model only
+            if ch == "A" and snap is not None and snap != o["S"]:
                 found.append((idx, "C04:callback-before-cache-update", "the cache seen inside the %s callback for %s differs from the cache after the op" % (ch, name)))
         if o["P"] is not None:
             for bid, types in active.items():
